@@ -406,6 +406,8 @@ var c15Scripts = []string{
 	// an error value with a mutable payload kept in a global across runs and clones
 	"if !is_error(b) { b = error({n: a, l: [cnt]}) } else { b.value.n = a; b.value.l[0] += 1 }\nout := b\n",
 	"hist = [error([a]), hist]\nif is_error(hist[1][0]) { hist[1][0].value[0] = cnt }\nq := hist\n",
+	"cfg.hits[0] += a\nout := cfg.hits[0]\n",
+	"cfg.hits = append(cfg.hits, cnt)\n",
 	// "copy" is a host variable of these histories although it is also the name of a builtin function
 	"out := copy\n",
 	"copy = len(hist)\nq := is_function(copy)\n",
@@ -476,6 +478,9 @@ func (c *c15) historyCase(r *fw.Rec, rng *rand.Rand) {
 	add("hist", []interface{}{int64(0)}, ref.NewArr([]ref.Value{ref.Int(0)}, false))
 	add("m", map[string]interface{}{}, ref.NewMap(nil, false))
 	add("copy", "cp", ref.Str("cp"))
+	// an immutable container from the host with a mutable element inside
+	add("cfg", &tengo.ImmutableMap{Value: map[string]tengo.Object{"name": &tengo.String{Value: "c"}, "hits": &tengo.Array{Value: []tengo.Object{&tengo.Int{Value: 0}}}}},
+		ref.NewMap(map[string]ref.Value{"name": ref.Str("c"), "hits": ref.NewArr([]ref.Value{ref.Int(0)}, false)}, true))
 	add("rows", []interface{}{map[string]interface{}{"id": int64(0)}, []interface{}{int64(1)}},
 		ref.NewArr([]ref.Value{ref.NewMap(map[string]ref.Value{"id": ref.Int(0)}, false), ref.NewArr([]ref.Value{ref.Int(1)}, false)}, false))
 	var live []*c15Compiled
@@ -593,7 +598,7 @@ func (c *c15) historyCase(r *fw.Rec, rng *rand.Rand) {
 			}
 		case 7, 8: // Get
 			t := pick(rng, live)
-			n := pick(rng, []string{"a", "b", "cnt", "hist", "m", "out", "x", "c", "late", "nosuch", "z", "q", "d", "s", "n", "rows", "rows", "copy", "len"})
+			n := pick(rng, []string{"a", "b", "cnt", "hist", "m", "out", "x", "c", "late", "nosuch", "z", "q", "d", "s", "n", "rows", "rows", "copy", "len", "cfg", "cfg"})
 			got := canon(t.cp.Get(n).Object())
 			want := "undef"
 			if v, ok := t.state[n]; ok {
